@@ -193,6 +193,14 @@ def knapsacks(seed_, n):
         if r.random() < 0.4:
             rows.append(([r.choice([1, -1, 0, 2]) for _ in range(nv)], r.choice(['<=', '>=', '=']), r.choice([0, 1, 3])))
         obj = [r.choice([4, 6, 9, 2.5, 11, 5, 1]) for _ in range(nv)]
+        if r.random() < 0.3:
+            # an objective of the order of 1e4 next to unit steps: a relative gap of 1e-4 then separates neighbouring
+            # integer solutions, so "optimal" must really mean gap 0 unless a gap was requested
+            kinds.append(gen.D('Int', 0, 10))
+            for row in rows:
+                row[0].append(0)
+            obj.append(1000)
+            nv += 1
         d = r.choice(['max', 'max', 'min', 'max', 'min', 'solve'])
         if d == 'solve':
             obj = [0] * nv   # satisfiability model: the limit / status mapping has its own path there
@@ -200,13 +208,28 @@ def knapsacks(seed_, n):
     return out
 
 
+def gap_family():
+    """MILPs whose objective is of the order of 1e4 while neighbouring integer solutions differ by 1, with the small
+    part of the objective parallel to a row (a degenerate, fractional root relaxation): a search that stops at a
+    relative gap of 1e-4 returns 10003 where the optimum is 10004. Unless a gap was requested, Optimal means gap 0."""
+    D = gen.D
+    out = []
+    for (a, b) in ((1, 2), (1, 3), (2, 3), (3, 5), (2, 5)):
+        for cap in (4, 5, 7, 8):
+            for hi in (3, 4):
+                out.append(gen.lm_spec([D('Int', 0, 10), D('Int', 0, hi), D('Int', 0, hi)], [([0, a, b], '<=', cap)], [1000, a, b], 'max'))
+                out.append(gen.lm_spec([D('Int', 0, 20), D('Int', 0, hi), D('Int', 0, hi)], [([0, a, b], '>=', cap - 2), ([1, 0, 0], '>=', 10)], [1000, a, b], 'min'))
+                out.append(gen.lm_spec([D('Int', 0, 10), D('Int', 0, hi), D('Real', 0, hi)], [([0, a, b], '<=', cap + 0.5)], [1000, a, b], 'max', off=1.5))
+    return out
+
+
 def family(t, sd):
     if t == 'quick':
         specs = [s for s in gen.l_seeded(71, 4000, offsets=True, satisfy=True) if any(v[1]['k'] in ('Boolean', 'Int') for v in s['vars'])][:1200]
-        specs += knapsacks(72, 300)
+        specs += knapsacks(72, 300) + gap_family()
     else:
         specs = [s for s in gen.l_seeded(700 + sd, 30000, offsets=True, satisfy=True) if any(v[1]['k'] in ('Boolean', 'Int') for v in s['vars'])]
-        specs += knapsacks(720 + sd, 3000)
+        specs += knapsacks(720 + sd, 3000) + gap_family()
     lim = os.environ.get('VERIF_LIMIT')
     if lim:
         specs = specs[::max(1, len(specs) // int(lim))]
